@@ -99,6 +99,7 @@ fn main() {
         "C15" => props::c15::run(&ctx, &mut model, &mut rep),
         "C17" => props::c17::run(&ctx, &mut model, &mut rep),
         "C18" => props::c18::run(&ctx, &mut model, &mut rep),
+        "C19" => props::c19::run(&ctx, &mut model, &mut rep),
         "C20" => props::c20::run(&ctx, &mut model, &mut rep),
         other => {
             eprintln!("unknown property {}", other);
